@@ -1,4 +1,5 @@
 """C08 - coroutines advance one step per frame and wake exactly on time."""
+import fractions
 import itertools
 
 from mc import kernel
@@ -39,8 +40,10 @@ def inbody_restart_set():
 def drivers(tier):
     if tier == 'quick':
         fam = scripts((None, 0, -1, 1, 2), 3, spawn=((), (1,)))
+        half = fractions.Fraction(1, 2)     # waits need not be int / float
         lean = [script_from_yields(seq) for seq in
-                ((), (0.5,), (1,), (2,), (1, None), (None, 2))]
+                ((), (half,), (1,), (2,), (1, None), (None, 2),
+                 (fractions.Fraction(3, 2),))]
         return {'timing': (CoroDriver('timing', fam, dts=(0, 1, 2),
                                       max_started=2),
                            dict(max_states=400000, time_budget=300)),
